@@ -21,7 +21,7 @@ EXPLANATION = (
     "path of __init__ from bit 2 of the answer, every returned segment fed once, comparison with the server's '<H' "
     "dominates the final return, mismatch aborts with 0x05040004 and raises; R6 end confirmation iff done and no error; "
     "block boundary acknowledged at _ackseq >= blksize or the last segment, _ackseq wraps after a full block; R7 the "
-    "initiate and end responses are validated before use (clause shared with C07.R3); R9 readinto() stores the whole segment it consumed and reports its length; R8 structural assumptions shared by all properties: no class-level mutable object is mutated in place by instances, no method re-runs the constructor, logging statements cannot raise (typed eager formatting, divisions), no mutable default argument is kept or mutated, no new truth-value test of a None-able number."
+    "initiate and end responses are validated before use (clause shared with C07.R3); R9 readinto() stores the whole segment it consumed and reports its length; R8 structural assumptions shared by all properties: no class-level mutable object is mutated in place by instances, no method re-runs the constructor, logging statements cannot raise (typed eager formatting, divisions), no mutable default argument is kept or mutated, no new truth-value test of a None-able number, a look-up memory the pinned tree does not have is keyed by all its inputs (arithmetic keys folded over a grid of addresses) and, on the serving side, emptied somewhere."
     ' R5 also: _done is stored before the checksum comparison it guards.'
 )
 ASSUMPTIONS = [
